@@ -54,6 +54,8 @@ impl CrashContext {
 
         {
             let fs = &self.inner.float_state;
+            // The context has a member of its own for MXCSR besides the one in the save area
+            out.mx_csr = fs.mxcsr;
 
             let mut float_save = format::XMM_SAVE_AREA32 {
                 control_word: fs.cwd,
